@@ -125,7 +125,7 @@ func loadSpecs(prop string) ([]*harnessSpec, error) {
 				if !strings.HasPrefix(c.Text, "//verif:harness ") {
 					continue
 				}
-				s := &harnessSpec{Func: fd.Name.Name, PkgRel: pkgRel, File: f, Tiers: map[string]bool{}, Replay: true, Stubs: fileStubs}
+				s := &harnessSpec{Func: fd.Name.Name, PkgRel: pkgRel, File: f, Tiers: map[string]bool{}, Replay: true, Stubs: fileStubs, MaxSwitch: -1}
 				for _, kv := range splitDirective(c.Text[len("//verif:harness "):]) {
 					k, v, _ := strings.Cut(kv, "=")
 					v = strings.Trim(v, "\"")
@@ -377,6 +377,7 @@ func cmdCheck(args []string) int {
 	trace := fs.Bool("trace", false, "trace instructions")
 	workers := fs.Int("workers", 0, "worker count")
 	noReplay := fs.Bool("no-replay", false, "skip native replay")
+	oneScript := fs.String("script", "", "run only this decision script (debug)")
 	if len(args) < 1 {
 		fmt.Fprintln(os.Stderr, "usage: verifeng check <property> [--tier t]")
 		return 2
@@ -417,7 +418,7 @@ func cmdCheck(args []string) int {
 	}
 	defer sc.cleanup()
 	t0 := time.Now()
-	ld, err := loadProgram(sc, sel)
+	ld, err := loadProgram(sc, specs)
 	if err != nil {
 		fmt.Fprintln(os.Stderr, "INCONCLUSIVE load error:", err)
 		return 2
@@ -473,6 +474,14 @@ func cmdCheck(args []string) int {
 		}
 		h := &symgo.Harness{Name: s.Name, Fn: fn, Bounds: s.Bounds, MaxPaths: s.MaxPaths, MaxSteps: s.MaxSteps, MaxFanout: s.MaxFanout,
 			MaxSwitches: s.MaxSwitch, PreferInt: s.Prefer == "int", Reach: s.Reach, Tier: *tier}
+		if *oneScript != "" {
+			res := eng.RunScript(h, *oneScript)
+			fmt.Printf("status=%s msg=%s\nscript=%v\nreached=%v\nobs=%v\n", res.Status, res.Msg, res.Script, res.Reached, res.Observation)
+			for _, v := range res.Violations {
+				fmt.Printf("violation %s %s %s\n", v.Label, v.Detail, inputsString(v.Inputs))
+			}
+			return 0
+		}
 		rep := eng.Explore(h)
 		rep.Assumptions = s.Assume
 		reports = append(reports, rep)
@@ -500,7 +509,7 @@ func cmdCheck(args []string) int {
 			confirmed := true
 			note := ""
 			if s.Replay && !*noReplay {
-				ok, out := nativeReplay(sc, s, sel, v, replayPath)
+				ok, out := nativeReplay(sc, s, specs, v, replayPath)
 				confirmed = ok
 				if !ok {
 					note = out
@@ -729,9 +738,19 @@ func TestVerifReplay(t *testing.T) {
 	testPath := filepath.Join(dir, "replay_test.go")
 	os.WriteFile(testPath, []byte(test), 0o644)
 	repl[filepath.Join(repoDir, s.PkgRel, "zz_verif_replay_test.go")] = testPath
+	// hook time.Now so that verifSetClock works natively
+	if goroot, err := exec.Command("go", "env", "GOROOT").Output(); err == nil {
+		tp := filepath.Join(strings.TrimSpace(string(goroot)), "src", "time", "time.go")
+		if src, err := os.ReadFile(tp); err == nil && strings.Contains(string(src), "\nfunc Now() Time {") {
+			mod := strings.Replace(string(src), "\nfunc Now() Time {", "\n// VerifNowHook is installed by /verif replay harnesses.\nvar VerifNowHook func() Time\n\nfunc Now() Time {\n\tif VerifNowHook != nil {\n\t\treturn VerifNowHook()\n\t}\n\treturn verifRealNow()\n}\n\nfunc verifRealNow() Time {", 1)
+			tdst := filepath.Join(dir, "time.go")
+			os.WriteFile(tdst, []byte(mod), 0o644)
+			repl[tp] = tdst
+		}
+	}
 	ov := filepath.Join(dir, "overlay.json")
 	writeJSON(ov, map[string]interface{}{"Replace": repl})
-	cmd := exec.Command("go", "test", "-vet=off", "-count=1", "-run", "^TestVerifReplay$", "-overlay", ov, "-timeout", "120s", ".")
+	cmd := exec.Command("go", "test", "-vet=off", "-count=1", "-run", "^TestVerifReplay$", "-overlay", ov, "-timeout", "600s", ".")
 	cmd.Dir = filepath.Join(repoDir, s.PkgRel)
 	cmd.Env = append(append([]string{}, sc.env...), "VERIF_REPLAY="+replayPath)
 	out, _ := cmd.CombinedOutput()
